@@ -12,3 +12,10 @@ add("C19", "exploration", "runtime monitor: independent reference root + indepen
 add("C18", "exploration", "runtime monitor: math/big and IEEE reference oracle over exhaustive boundary-pair table plus seeded random operands",
     "Every exported currency helper is executed on the exhaustive B x B boundary table (B ~290 values), on products that are multiples of 2^64, on millions of random pairs/floats/decimal amounts and compared with exact big-number / IEEE-truncation / shortest-decimal references; panics are caught and reported. Held = no disagreement on the evaluations listed in the evidence.",
     "Trusts math/big, strconv shortest formatting and big.Rat parsing; boundary table exhaustive, remainder sampled from the seed.")
+
+add("C01", "exploration", "runtime monitor: Go-map reference model checked after every operation of seeded histories on four store configurations",
+    "16 000 (quick) / 640 000 (thorough) generated histories drive the real MerklePatriciaTrie on memory, layered and persistent (stub-backed PNodeDB) stores; after every operation all live and ~20 related absent paths are looked up and a full Iterate is compared with a map model; panics are violations. Coverage floors require every path-termination class (where the path ends relative to leaf/branch/extension boundaries) to be hit for insert and delete.",
+    "Persistent store = real PNodeDB over the pure-Go grocksdb stand-in; path alphabet is structure-seeking, not uniform.")
+add("C02", "exploration", "runtime monitor: independent canonical-trie hasher + six histories per content + own decoder read-back",
+    "For 12 800 (quick) / 320 000 (thorough) contents, six different operation histories ending in the same content are executed at a fixed version; the root after every operation must equal an independent implementation of the node-hash format applied to the canonical trie of the model content; stored encodings are read back with the harness' own parser; root->content injectivity is checked per worker.",
+    "The reference hasher encodes the format as read from the pinned code (sha3-256 over LE64(origin)‖body); it shares no code with /repo.")
